@@ -108,19 +108,34 @@ def _expected(content, q, nc, sel):
     return content[i]
 
 
-def observe(binfile, case, fs, nc, content, selectors):
-    """opens `binfile` with the real code and records one trace"""
+def observe(binfile, case, fs, nc, content, selectors, early=None):
+    """opens `binfile` with the real code and records one trace.  `early` = bytes the file holds while a Reader(open=False)
+    is constructed; the file as described by `case` is put in place afterwards and the same object is opened then"""
     import spikeglx
     kind, q = case["kind"], case["q"]
     t = dict(case)
+    t.setdefault("cq", -1)
+    t.setdefault("cr", 0)
     t.update({"outcome": "raised", "exc": "", "ns": -1, "rows": -1, "ncok": False, "rlf": -1, "ftsq": -1,
               "ftsw": True, "reads": [], "fs": repr(fs), "nc": nc})
     cls = spikeglx.OnlineReader if kind == "online" else spikeglx.Reader
     sr = None
     try:
-        sr = cls(binfile, sort=False, ignore_warnings=bool(case["quiet"]))
+        if early is not None:
+            final = Path(binfile).read_bytes()
+            Path(binfile).write_bytes(early)
+            sr = cls(binfile, sort=False, ignore_warnings=bool(case["quiet"]), open=False)
+            Path(binfile).write_bytes(final)
+            sr.open()
+        else:
+            sr = cls(binfile, sort=False, ignore_warnings=bool(case["quiet"]))
     except Exception as e:  # the property says the constructor succeeds
         t["exc"] = type(e).__name__
+        if sr is not None:
+            try:
+                sr.close()
+            except Exception:
+                pass
         return t
     try:
         t["outcome"] = "opened"
@@ -226,7 +241,12 @@ def run_case(ctx, sc, rng=None):
             # the stream that is physically there after chopping: chop * 5 frames of the q0 compressed ones
             mk["q"] = sc["q0"]
         binfile, nc, content = make_small(folder, mk, sc["fs"], rng)
-        t = observe(binfile, case, sc["fs"], nc, content, _selectors(case["q"]))
+        early = None
+        if case.get("cq", -1) >= 0:
+            # what an early constructor saw: the same recording at another stage of writing (longer: more frames follow)
+            more = metagen.random_int16(rng, case["cq"] + 1, nc)
+            early = (content.tobytes() + more.tobytes())[:case["cq"] * case["F"] + case["cr"]]
+        t = observe(binfile, case, sc["fs"], nc, content, _selectors(case["q"]), early=early)
     t.pop("chop", None)
     return t
 
@@ -275,6 +295,12 @@ def scenarios(ctx, exported):
         if r % (97 if ctx.quick else 11) == 0:
             out.append({"case": {"kind": "online", "F": F, "q": 50, "r": r, "meta": -1, "quiet": bool(r % 2)},
                         "fs": 30000, "seed": rnd.randrange(2 ** 31)})
+        if r % (41 if ctx.quick else 7) == 0:
+            # Reader(open=False) constructed at another stage of the file (matching the metadata or not), opened afterwards
+            for cq, cr, m in ((50, 0, 50), (50, 0, 40), (40, r, 40), (61, 5, 50), (30, 0, 30)):
+                q = 40 if cq != 40 else 47
+                out.append({"case": {"kind": "offline", "F": F, "q": q, "r": r, "meta": m, "quiet": True, "cq": cq, "cr": cr},
+                            "fs": FS_ALL[(r + cq) % len(FS_ALL)], "seed": rnd.randrange(2 ** 31)})
     # (c) sparse files: float rounding of round(size / 2 / nc / fs * fs) at 1e6 .. 1e9 frames
     qs = [10 ** 6, 10 ** 7, 10 ** 8, 10 ** 9, 2 ** 24 + 1, 2 ** 30 - 1]
     nrand = 6 if ctx.quick else 60
@@ -345,7 +371,8 @@ def check_records(ctx, scs, trs, label):
         sc, t = scs[i], trs[i]
         c = t
         desc = (f"{c['kind']} reader, {c['q']} frames + {c['r']} trailing bytes of {c['F']}-byte frames, metadata announces "
-                f"{c['meta'] if c['meta'] >= 0 else 'nothing yet'}, fs={t['fs']}")
+                f"{c['meta'] if c['meta'] >= 0 else 'nothing yet'}, fs={t['fs']}"
+                + (f", object constructed with open=False when the file held {c['cq']} frames + {c['cr']} bytes" if c.get("cq", -1) >= 0 else ""))
         if v["prop"]:
             key = key_of(t, v["prop"])
             classes[key] = classes.get(key, 0) + 1
@@ -393,7 +420,7 @@ def run(ctx):
         trs.append(t)
         c = sc["case"]
         nontrivial = c["r"] != 0 or c["meta"] != c["q"]
-        ctx.count(1, key=(c["kind"], c["F"], c["q"], c["r"], c["meta"], c["quiet"], sc["fs"]) if nontrivial else None)
+        ctx.count(1, key=(c["kind"], c["F"], c["q"], c["r"], c["meta"], c["quiet"], sc["fs"], c.get("cq", -1), c.get("cr", 0)) if nontrivial else None)
     bad = check_records(ctx, scs, trs, "readeropen")
     if not r.ok and not (set(range(len(scs_cex))) & bad):
         raise tlc.TLCError(f"the model violates {r.invariant_violated} but the real code does not on the counterexample: "
@@ -424,6 +451,9 @@ def model_cex_scenarios(r):
         F, b = int(st["F"]), int(st["bytes"])
         case = {"kind": tlc.parse_value(st["kind"]), "F": F, "q": b // F, "r": b % F, "meta": int(st["meta"]),
                 "quiet": tlc.parse_value(st["quiet"])}
+        cb = int(st.get("cbytes", -1))
+        if cb >= 0:
+            case.update({"cq": cb // F, "cr": cb % F})
     except Exception as e:
         raise tlc.TLCError(f"model violates {r.invariant_violated}; counterexample not parsable: {e}\n{r.out[-1500:]}")
     return [{"case": case, "fs": 30000, "seed": 1}]
